@@ -189,6 +189,9 @@ static std::map<std::string, Fn> table;
 
 int main() {
     typedef __int128_t i128; typedef __uint128_t u128;
+    // The ring types are spread over four translation units (-DC03_PART=1..4, compiled in parallel by checks/C03.py);
+    // without C03_PART every ring is registered.
+#if !defined(C03_PART) || C03_PART == 1
     // every (Storage_t, Compute_t) pair accepted by the enable_if of modular-integral.h
     REG("i8_i8", Modular<int8_t, int8_t>);     REG("i8_u8", Modular<int8_t, uint8_t>);
     REG("i8_i16", Modular<int8_t, int16_t>);   REG("i8_u16", Modular<int8_t, uint16_t>);
@@ -198,6 +201,8 @@ int main() {
     REG("i16_i32", Modular<int16_t, int32_t>); REG("i16_u32", Modular<int16_t, uint32_t>);
     REG("u16_i16", Modular<uint16_t, int16_t>); REG("u16_u16", Modular<uint16_t, uint16_t>);
     REG("u16_i32", Modular<uint16_t, int32_t>); REG("u16_u32", Modular<uint16_t, uint32_t>);
+#endif
+#if !defined(C03_PART) || C03_PART == 2
     REG("i32_i32", Modular<int32_t, int32_t>); REG("i32_u32", Modular<int32_t, uint32_t>);
     REG("i32_i64", Modular<int32_t, int64_t>); REG("i32_u64", Modular<int32_t, uint64_t>);
     REG("u32_i32", Modular<uint32_t, int32_t>); REG("u32_u32", Modular<uint32_t, uint32_t>);
@@ -206,15 +211,20 @@ int main() {
     REG("i64_i128", Modular<int64_t, i128>);   REG("i64_u128", Modular<int64_t, u128>);
     REG("u64_i64", Modular<uint64_t, int64_t>); REG("u64_u64", Modular<uint64_t, uint64_t>);
     REG("u64_i128", Modular<uint64_t, i128>);  REG("u64_u128", Modular<uint64_t, u128>);
+#endif
+#if !defined(C03_PART) || C03_PART == 3
     REG("f_f", Modular<float, float>); REG("f_d", Modular<float, double>); REG("d_d", Modular<double, double>);
     REG("bi32", ModularBalanced<int32_t>); REG("bi64", ModularBalanced<int64_t>);
     REG("bf", ModularBalanced<float>); REG("bd", ModularBalanced<double>);
     REG("ef", ModularExtended<float>); REG("ed", ModularExtended<double>);
+#endif
+#if !defined(C03_PART) || C03_PART == 4
     REG("zz", Modular<Integer>); REG("log16", Modular<Log16>);
     REG("ri7_7", Modular<RecInt::rint<7>, RecInt::rint<7> >);
     REG("ru6_6", Modular<RecInt::ruint<6>, RecInt::ruint<6> >); REG("ru6_7", Modular<RecInt::ruint<6>, RecInt::ruint<7> >);
     REG("ru7_7", Modular<RecInt::ruint<7>, RecInt::ruint<7> >); REG("ru7_8", Modular<RecInt::ruint<7>, RecInt::ruint<8> >);
     REG("ru8_8", Modular<RecInt::ruint<8>, RecInt::ruint<8> >); REG("ru8_9", Modular<RecInt::ruint<8>, RecInt::ruint<9> >);
+#endif
 
     std::string line;
     while (std::getline(std::cin, line)) {
